@@ -108,3 +108,20 @@ Proof.
   destruct r1; cbn [is_err]; try (destruct (ntype_eqb _ _); discriminate).
   intros [= <- <-]. eapply pins_error_unchanged; eassumption.
 Qed.
+
+(** removeAttributeNode removes THAT node or nothing: identity, not name *)
+Lemma amap_find_in : forall h l nm f, amap_find h l nm = Some f -> In f l.
+Proof. induction l as [|a l IH]; cbn; [discriminate|]. intros nm f. destruct (str_eqb _ _); [intros [= <-]; left; reflexivity|intros H; right; eapply IH; exact H]. Qed.
+Lemma amap_find_ns_in : forall h l ns loc f, amap_find_ns h l ns loc = Some f -> In f l.
+Proof. induction l as [|a l IH]; cbn; [discriminate|]. intros ns loc f. destruct (_ && _); [intros [= <-]; left; reflexivity|intros H; right; eapply IH; exact H]. Qed.
+
+Lemma remove_attribute_node_identity : forall h e a h' r, remove_attribute_node h e a = (h', r) ->
+  (r = RNode a /\ In a (n_attrs (nd h e))) \/ ((r = RErr NOT_FOUND \/ r = RErr NO_MOD) /\ h' = h).
+Proof.
+  intros h e a h' r. unfold remove_attribute_node.
+  destruct (n_ro _); [intros [= <- <-]; right; auto|].
+  destruct (if n_nsimpl (nd h a) then _ else _) as [f|] eqn:Ef; [|intros [= <- <-]; right; auto].
+  destruct (Nat.eqb_spec f a) as [->|_]; [|intros [= <- <-]; right; auto].
+  intros [= _ <-]. left. split; [reflexivity|].
+  destruct (n_nsimpl (nd h a)); [eapply amap_find_ns_in|eapply amap_find_in]; exact Ef.
+Qed.
